@@ -1,6 +1,11 @@
 """Merge /verif/findings/*.json into known_findings.json, skipping keys listed in FIXED (fixed by commits in /repo)."""
 import glob, json, subprocess, sys
 FIXED = {  # key -> (property, commit subject prefix)
+  "C34:ray_mesh:non-unit-direction": ("C34", "fix: mesh and hfield rays accept non-unit directions"),
+  "C34:bvh:flex-stride-multiworld": ("C34", "fix: BVH ray query uses the per-world stride"),
+  "C34:bvh:mesh-bounds-not-centred": ("C34", "fix: mesh BVH bounds cover meshes not centred"),
+  "C35:render:mesh-clipped-by-off-centre-bounds": ("C35", "fix: mesh BVH bounds cover meshes not centred"),
+  "C35:render:orthographic-all-pixels-same-ray": ("C35", "fix: orthographic cameras cast parallel rays"),
   "C33:set_length_range:nworld>1-writes-out-of-bounds": ("C33", "fix: set_length_range launches over the rows"),
   "C33:_compute_cam_pos0:mixed-batch-rows": ("C33", "fix: camera/light reference kernels index each output"),
   "C33:set_const_0:camlight-evaluated-in-tracking-mode": ("C33", "fix: set_const_0 evaluates cameras and lights in fixed mode"),
